@@ -21,7 +21,7 @@ BUILTINS = {'len', 'max', 'min', 'sum', 'dict', 'list', 'set', 'zip', 'enumerate
 EXC_NAMES = {'ValueError', 'TypeError', 'Exception', 'NotImplementedError', 'KeyError', 'IndexError', 'AssertionError',
              'AttributeError', 'RuntimeError'}
 LIB_ALIASES = {'numpy': 'np', 'pandas': 'pd', 'multiprocessing': 'mp', 'matplotlib.pyplot': 'plt', 'seaborn': 'sns'}
-LIB_CLASSES = {'np.Generator'}
+LIB_CLASSES = {'np.Generator', 'StandardScaler'}
 
 STATUS_COLS = {'is_trained': 'bool', 'is_warm': 'bool', 'warm_started_by': 'optarm'}
 
@@ -192,6 +192,14 @@ class Engine:
             if desc in ('str', 'callable'):
                 st.assume(z3.Not(run_isnone(v.term)))
             return v
+        if desc == 'scaler':
+            return st.alloc(Obj('StandardScaler', {'state': OpaqueV(fresh(name, Opaque), 'scaler')}), fresh=False)
+        if desc.startswith('str:{'):
+            alts = [x.strip() for x in desc[4:].strip('{}').split('|')]
+            forced = getattr(run, 'forced_cls', {}).get(name)
+            k = forced if forced else alts[run.path.choice(len(alts))]
+            run.choices = getattr(run, 'choices', []) + ['%s=%s' % (name.split('_')[-1], k)]
+            return StrV(k)
         if desc == 'binarizer':
             v = OpaqueV(fresh(name, Opaque), 'binarizer')
             st.assume(z3.Not(run_isnone(v.term)))
@@ -438,7 +446,13 @@ class Engine:
             run.emit('raises.post', g, c.name or ('#%d' % k), props=c.props or sp.props, meta={'clause': c.text})
         # a rejected call changes nothing: empty frame on the exceptional exit
         n0 = len(run.obligs)
-        C.frame_obligations(run, entry, [], roots, sp.props)
+        saved = run.st
+        run.st = entry
+        try:
+            rdescs = C.parse_modifies(run, sp.raises_modifies, env, fi=fi, dyn_cls=cls)
+        finally:
+            run.st = saved
+        C.frame_obligations(run, entry, rdescs, roots, sp.props)
         for ob in run.obligs[n0:]:
             ob.kind = 'raises.unchanged'
             ob.name = ob.name.replace(':frame:', ':raises.unchanged[%s %s]:' % (e.exc_type, e.where))
